@@ -12,7 +12,7 @@ from facts import REPO, Program, extract, show, call_obj, call_args, walk, CALL_
 from e1_paths import single_def
 from report import Check
 
-UNITS = ["src/Estimation/KrigingSystem.cpp"]
+UNITS = ["src/Estimation/KrigingSystem.cpp", "src/Drifts/DriftList.cpp"]
 CLS = "KrigingSystem"
 # private helpers whose listed arguments are sample ranks of the input data base (-1 designates the target); from their
 # doc comments, confirmed against the call sites
@@ -114,6 +114,37 @@ class Kinds:
 
 def fkey_of(f):
     return "%s/%d" % (f.name, len(f.params))
+
+
+def branch_parameter_rule(prog, chk, files):
+    """C01p - the equation asked about is the equation answered.  A helper of the drift list that splits on a mode flag (`if (_flagCombined) ..
+    else ..`) and receives the rank of an equation / function / variable reads that rank in BOTH branches (when nothing outside the branches
+    does): `DriftList::isDriftSampleDefined(db, ib, ..)` ignored `ib` in its default branch, so the unbiasedness equation of a variable
+    that has no sample in the neighbourhood was kept and the cokriging system had a zero row (NaN estimates, zero standard deviation)."""
+    n = 0
+    for f in sorted(prog.funcs, key=lambda x: (x.file, x.line)):
+        if f.body is None or not any(f.file.endswith(s_) for s_ in files) or f.body["k"] != "Block":
+            continue
+        ints = {p_["d"]: p_["n"] for p_ in f.params if p_["t"].strip() in ("int", "const int")}
+        if not ints:
+            continue
+        for x in [y for y in f.body["c"] if y is not None and y["k"] == "If" and y["c"][-1] is not None and y["c"][-2] is not None]:
+            cnd = {z.get("d") for z in walk(x["c"][-3])} if x["c"][-3] is not None else set()
+            t = {z.get("d") for z in walk(x["c"][-2]) if z["k"] == "DeclRefExpr"}
+            e = {z.get("d") for z in walk(x["c"][-1]) if z["k"] == "DeclRefExpr"}
+            for d_, nm in sorted(ints.items(), key=lambda kv: kv[1]):
+                if d_ in cnd or not (d_ in t or d_ in e):
+                    continue
+                elsewhere = any(z["k"] == "DeclRefExpr" and z.get("d") == d_ for y in f.body["c"] if y is not None and y["i"] != x["i"] for z in walk(y))
+                if elsewhere:
+                    continue
+                n += 1
+                ok = (d_ in t) == (d_ in e)
+                chk.analysed(f)
+                chk.ob("C01p", "%s: `%s` is read by both branches of `if (%s)`" % (f.name, nm, show(x["c"][-3])[:30]), f.loc(x), ok,
+                       detail=None if ok else "only the %s branch reads `%s`: in the other mode the answer does not depend on the item asked about" % (
+                           "first" if d_ in t else "else", nm), key="C01p|%s|%s" % (f.name, nm))
+    chk.floor("C01p", n, 4)
 
 
 def main(tier):
@@ -283,4 +314,5 @@ def main(tier):
     chk.extra["sinks_with_inferred_kind"] = nk
     chk.floor("C01", n, 60)
     chk.floor("C01-kinded", nk, 30)
+    branch_parameter_rule(prog, chk, ("src/Drifts/DriftList.cpp",))
     return chk.finish()
